@@ -35,6 +35,9 @@ pub struct BtReplay {
     pub key_kind: u8,
     /// every payload of this tree has exactly this many bytes (open finding D31: mixed cell sizes)
     pub payload_len: usize,
+    /// payload sizes vary from operation to operation (0 = uniform `payload_len`)
+    #[serde(default)]
+    pub mixed_sizes: u8,
     pub events: Vec<BtOp>,
     #[serde(default)]
     pub violation: Option<Violation>,
@@ -50,8 +53,9 @@ pub fn gen_case(prop: &str, verif_seed: u64, idx: u64) -> BtReplay {
     let n = if tall { rng.range(600, 1400) } else if rng.chance(25) { rng.range(150, 400) } else { rng.range(10, 120) } as usize;
     let keyspace = (n as i64 * *rng.pick(&[1i64, 2, 4])).max(8);
     let mode = rng.below(6);
-    // one size per tree (open finding D31) and small enough never to need an overflow page at any
-    // page size / min keys of the swarm (open findings D31b/D32)
+    // payload size of the tree, small enough never to need an overflow page at any page size / min keys
+    // of the swarm (open findings D31b/D32). A third of the trees mix payload sizes of 8-104 bytes from
+    // operation to operation (D31, repaired); mixes that include cells of 450-650 bytes are open finding D31e
     let payload_len = if tall { *rng.pick(&[104usize, 200, 200, 400]) } else { *rng.pick(&[8usize, 24, 104, 200, 400]) };
     let page = if tall { 4096 } else { page };
     let mut ops = vec![];
@@ -96,7 +100,7 @@ pub fn gen_case(prop: &str, verif_seed: u64, idx: u64) -> BtReplay {
     }
     ops.push(BtOp::Scan(true));
     ops.push(BtOp::Scan(false));
-    BtReplay { property: prop.into(), engine: "E3b-btreesim".into(), seed, page, cache, min_keys: rng.range(3, 6) as usize, siblings: rng.range(1, 3) as usize, key_kind: if rng.chance(20) { 3 } else { rng.below(3) as u8 }, payload_len, events: ops, violation: None }
+    BtReplay { property: prop.into(), engine: "E3b-btreesim".into(), seed, page, cache, min_keys: rng.range(3, 6) as usize, siblings: rng.range(1, 3) as usize, key_kind: if rng.chance(20) { 3 } else { rng.below(3) as u8 }, payload_len, mixed_sizes: if std::env::var("AXSIM_NOGUARD").map(|g| g.contains("mixed_cell_sizes_with_large_cells")).unwrap_or(false) { 2 } else if rng.chance(35) { 1 } else { 0 }, events: ops, violation: None }
 }
 
 /// the harness's own order over keys
@@ -302,7 +306,13 @@ pub fn run_case(case: &BtReplay, idx: u64) -> RunResult {
     for (i, op) in case.events.iter().enumerate() {
         let mut payload = || {
             ctr += 1;
-            format!("{:0width$}", ctr, width = case.payload_len)
+            let w = match case.mixed_sizes {
+                0 => case.payload_len,
+                // small sizes only / everything up to payload_len
+                1 => [8usize, 24, 40, 104][(ctr as usize * 7 + i) % 4].min(case.payload_len.max(8)),
+                _ => [8usize, 24, 104, 200, 400][(ctr as usize * 7 + i) % 5],
+            };
+            format!("{:0width$}", ctr, width = w)
         };
         let before_free;
         let before_total;
